@@ -2,6 +2,7 @@ SPECIFICATION TraceSpec
 CONSTANTS Strict = FALSE K = 1 SendPuncture = TRUE PunctureFirst = TRUE FollowAll = FALSE QuietCalls = FALSE MaxId = 1
           APlaces = {} CandPlaces = {} MaxContactsA = 1 MaxContactsB = 1
           MinContacts = 1 MaxRebinds = 1000 Clock0 = 0 Refresh = TRUE Ident16 = TRUE
+          Svcs = {"M", "X"} Phased = FALSE V6N = 0 StyleAware = TRUE SvcWalkable = TRUE
 INVARIANT TraceAccepted
 INVARIANT ReachAtEnd
 INVARIANT HandsOutCurrent
